@@ -246,9 +246,28 @@ func (w *c14World) step(r *core.R, op, desc string) {
 			prev[i] = b
 		}
 	}
-	capOK := false
+	capOK, capAllBefore := false, false
 	if op != "verify" {
 		capOK = w.w18.withinCapacity(filepath.Dir(w.dir))
+		capAllBefore = capOK
+		if !capOK {
+			// capacity with every recovery file present: put them back for the
+			// computation, then restore the volume state of this edge
+			present := map[string]bool{}
+			for _, v := range w.volumes {
+				if _, err := os.Stat(filepath.Join(w.dir, v)); err == nil {
+					present[v] = true
+				} else {
+					os.WriteFile(filepath.Join(w.dir, v), w.volData[v], 0644)
+				}
+			}
+			capAllBefore = w.w18.withinCapacity(filepath.Dir(w.dir))
+			for _, v := range w.volumes {
+				if !present[v] {
+					os.Remove(filepath.Join(w.dir, v))
+				}
+			}
+		}
 	}
 	core.Note("C14 %s op=%s", desc, op)
 	res := w.exec(op)
@@ -307,6 +326,21 @@ func (w *c14World) step(r *core.R, op, desc string) {
 		}
 		if capOK {
 			r.Violate("repair-does-not-converge", "%s: damage is within capacity (recomputed from the bytes on disk) but %s failed: %v", desc, op, res.err)
+		}
+		// "... so repeated attempts as more recovery files arrive converge": if
+		// the state before this failed attempt was repairable with every
+		// recovery file back, it still is afterwards. (Checked when the failed
+		// attempt wrote something; an attempt that wrote nothing changed nothing.)
+		if len(res.writes) > 0 && capAllBefore {
+			for _, v := range w.volumes {
+				os.WriteFile(filepath.Join(w.dir, v), w.volData[v], 0644)
+			}
+			os.WriteFile(w.idx, w.idxData, 0644)
+			again := w.exec("repair")
+			r.Count("convergence_after_failed_writing_repair", 1)
+			if again.panicked == nil && again.err != nil {
+				r.Violate("repair-does-not-converge", "%s: before the failed %s (%v) the damage was within what all recovery files can repair; after it (it wrote %v) and with every recovery file back, Repair fails: %v", desc, op, res.err, pathsOf(res.writes), again.err)
+			}
 		}
 	}
 	for i, s := range afterStates {
